@@ -238,6 +238,62 @@ func VerifC28FindReplace() {
 		r2 = ReplaceAll(e, func(x expr.Binary) (expr.Expr, bool) { return x.Arg1(), true })
 	})
 	sym.Assert(vStructEq(r2, vRefDropBinary(e)), "ReplaceAll works bottom-up")
+
+	// selective rewrites of inner nodes: the callback declines some nodes of
+	// the requested kind; replacements below a declined node must survive.
+	var r3, r4, r5 expr.Expr
+	sym.NoPanic(func() {
+		r3 = ReplaceAll(e, func(x expr.Binary) (expr.Expr, bool) {
+			if x.Op() == expr.Add {
+				return x.Arg1(), true
+			}
+			return nil, false
+		})
+		r4 = ReplaceAll(e, func(x expr.MemLoad) (expr.Expr, bool) {
+			if x.Key() == "m" {
+				return expr.NewRegLoad("was-m", x.Width()), true
+			}
+			return nil, false
+		})
+		r5 = ReplaceAll(e, func(x expr.Less) (expr.Expr, bool) {
+			if x.Width() == 1 {
+				return x.ExprTrue(), true
+			}
+			return nil, false
+		})
+	})
+	sym.Assert(vStructEq(r3, vRefSelective(e, 0)), "ReplaceAll replaces exactly the accepted Binary nodes, also below declined ones")
+	sym.Assert(vStructEq(r4, vRefSelective(e, 1)), "ReplaceAll replaces exactly the accepted MemLoad nodes, also below declined ones")
+	sym.Assert(vStructEq(r5, vRefSelective(e, 2)), "ReplaceAll replaces exactly the accepted Less nodes, also below declined ones")
+	if !vStructEq(r3, e) {
+		sym.Reach("selective-changed")
+	}
+}
+
+// vRefSelective is the bottom-up reference of the three selective rewrites.
+func vRefSelective(e expr.Expr, mode int) expr.Expr {
+	switch x := e.(type) {
+	case expr.MemLoad:
+		a := vRefSelective(x.Addr(), mode)
+		if mode == 1 && x.Key() == "m" {
+			return expr.NewRegLoad("was-m", x.Width())
+		}
+		return expr.NewMemLoad(x.Key(), a, x.Width())
+	case expr.Binary:
+		a1, a2 := vRefSelective(x.Arg1(), mode), vRefSelective(x.Arg2(), mode)
+		if mode == 0 && x.Op() == expr.Add {
+			return a1
+		}
+		return expr.NewBinary(x.Op(), a1, a2, x.Width())
+	case expr.Less:
+		a1, a2 := vRefSelective(x.Arg1(), mode), vRefSelective(x.Arg2(), mode)
+		t, f := vRefSelective(x.ExprTrue(), mode), vRefSelective(x.ExprFalse(), mode)
+		if mode == 2 && x.Width() == 1 {
+			return t
+		}
+		return expr.NewLess(a1, a2, t, f, x.Width())
+	}
+	return e
 }
 
 func vRefReplace(e expr.Expr, repl expr.Expr) expr.Expr {
